@@ -161,7 +161,7 @@ fn s1(ctx: &mut Ctx, full: bool) {
     }
     let mut part = Part::new("S1_all_strings", "every byte string of length 1, 2, 3 decoded as n' = 1, 2, 3 coefficients: decompress vs bit-level Algorithm 18; accepted => compress reproduces the string");
     part.exhaustive = true;
-    if total.outcomes.get(&Outcome::Accept).copied().unwrap_or(0) == 0 {
+    if total.outcomes.get(&Outcome::Accept).copied().unwrap_or(0) == 0 && total.nviol == 0 {
         crate::ctx::machinery_error("C07 S1: no string was accepted (vacuity guard)");
     }
     total.into_part(ctx, part);
@@ -248,7 +248,7 @@ fn s3(ctx: &mut Ctx, dmax: usize, tailbits: usize) {
             &format!("n={}, L={} bytes: for every distance d in 0..={} bits between cursor and buffer end with r in {{1,2,3}} coefficients still to decode (prefix of n-r in-range coefficients steering the cursor), all 2^min(d,{}) leading tail patterns x remaining bits all-0/all-1", n, l, dmax, tailbits),
         );
         part.exhaustive = true;
-        if t.outcomes.get(&Outcome::Accept).copied().unwrap_or(0) == 0 {
+        if t.outcomes.get(&Outcome::Accept).copied().unwrap_or(0) == 0 && t.nviol == 0 {
             crate::ctx::machinery_error("C07 S3: no string was accepted (vacuity guard)");
         }
         t.into_part(ctx, part);
